@@ -3,6 +3,7 @@ from .. import absint, mir, util, opw
 from .. import collision_model as cm
 from ..mir import cname, strip, callee_name, show
 from . import C10
+from ..facts import MachineryError
 
 EXPLANATION = ('Decides from MIR: (R14.1) the twelve candidates are initial with slot k replaced by from[k] / to[k] for k in 0..6 (same k); '
                '(R14.2) a candidate outside the limits is withheld on the false edge of compliant(&candidate); (R14.3) skip-set soundness: with '
@@ -40,6 +41,161 @@ def _skip_shape(sk):
     return None, False
 
 
+class _Script(Exception):
+    pass
+
+
+def _by_interpretation(ctx, prog, nb, enum_b):
+    """R14.1 / R14.2 / R14.4 by abstract interpretation of non_colliding_offsets on distinct point values: the twelve
+    candidates, the limits gate and the collision gate are observed through scripted answers of compliant() and of the pair
+    enumeration (each candidate in turn refused by one of them).  Returns the constant extra members of the skip sets."""
+    from ..absint import Interp, Iv, Sym, SOME, NONE
+    ctx.fn(nb)
+    for cb in util.closure_bodies(prog, nb.path):
+        ctx.fn(cb)
+    INIT = tuple(10.0 + k for k in range(6))
+    FROM = tuple(20.0 + k for k in range(6))
+    TO = tuple(30.0 + k for k in range(6))
+    expected = set()
+    for k in range(6):
+        for tg in (FROM, TO):
+            expected.add(INIT[:k] + (tg[k],) + INIT[k + 1:])
+    own_safety = Sym('own-safety-table')
+    first = [i for i, v in enumerate(prog.adts['collisions::CheckMode']['variants']) if v['name'] == 'FirstCollisionOnly'][0]
+
+    def cand_of(v, I, st):
+        v = cm._val(I, st, v)
+        if isinstance(v, (tuple, list)) and len(v) == 6 and all(isinstance(x, Iv) and x.is_point() for x in v):
+            return tuple(x.lo for x in v)
+        raise absint.Unsupported('candidate %r' % (v,))
+
+    def run(limits, refuse_limits=None, refuse_collision=None):
+        calls = []
+        asked = []
+
+        def h_constraints(I, st, a, t, b):
+            return ('refval', SOME(Sym('limits')) if limits else NONE, ())
+
+        def h_compliant(I, st, a, t, b):
+            cnd = cand_of(a[1], I, st)
+            asked.append(cnd)
+            return cnd != refuse_limits
+
+        def h_fk(I, st, a, t, b):
+            cnd = cand_of(a[1], I, st)
+            return tuple(Sym(('pose', i, cnd)) for i in range(6))
+
+        def h_cast(I, st, a, t, b):
+            return cm._val(I, st, a[0])
+
+        def h_enum(I, st, a, t, b):
+            poses = cm._val(I, st, a[1])
+            cnd = poses[0].tag[2] if isinstance(poses, (tuple, list)) and poses and isinstance(poses[0], Sym) and isinstance(poses[0].tag, tuple) else None
+            calls.append({'poses': poses, 'safety': cm._val(I, st, a[2]), 'mode': cm._val(I, st, a[3]), 'skip': cm._val(I, st, a[4]), 'cand': cnd})
+            return ((0, 1000),) if cnd == refuse_collision else ()
+
+        def h_collect(I, st, a, t, b):
+            items = absint._items_of(I, st, a[0])
+            return frozenset(items) if 'HashSet' in b.local_ty(t['dest']['local']) else tuple(items)
+
+        def h_is_empty(I, st, a, t, b):
+            return len(cm._val(I, st, a[0])) == 0
+
+        def h_flat_map(I, st, a, t, b):
+            out = []
+            for x in absint._items_of(I, st, a[0]):
+                out += list(absint._items_of(I, st, absint._call_f(I, st, a[1], [x])))
+            return {'#iter': 'seq', 'items': tuple(out), 'pos': 0}
+
+        def h_set_new(I, st, a, t, b):
+            return frozenset()
+
+        def h_set_insert(I, st, a, t, b):
+            cur = cm._val(I, st, a[0])
+            I._write_ref(st, a[0], frozenset(cur) | {a[1]})
+            return a[1] not in cur
+
+        def h_is_some_and(I, st, a, t, b):
+            o = absint._opt(I, st, a[0])
+            return False if o[1] == 0 else absint._truth(absint._call_f(I, st, a[1], [o[2][0]]))
+        H = dict(cm.HANDLERS)
+        H.update({'Kinematics::constraints': h_constraints, 'Constraints::compliant': h_compliant, 'Kinematics::forward_with_joint_poses': h_fk,
+                  'Isometry::cast': h_cast, 'RobotBody::' + enum_b.path.split('::')[-1]: h_enum, enum_b.path: h_enum,
+                  'Iterator::collect': h_collect, 'ParallelIterator::collect': h_collect, 'Vec::is_empty': h_is_empty, 'slice::is_empty': h_is_empty,
+                  'IntoParallelRefIterator::par_iter': absint.h_iter, 'IntoParallelIterator::into_par_iter': absint.h_into_iter,
+                  'ParallelIterator::filter_map': absint.h_iter_filter_map, 'ParallelIterator::map': absint.h_iter_map,
+                  'ParallelIterator::filter': absint.h_iter_filter, 'ParallelIterator::flat_map': h_flat_map, 'Iterator::flat_map': h_flat_map,
+                  'ParallelIterator::flat_map_iter': h_flat_map, 'HashSet::new': h_set_new, 'HashSet::with_capacity': h_set_new, 'HashSet::insert': h_set_insert,
+                  'Option::is_some_and': h_is_some_and, 'Option::is_none_or': lambda I, st, a, t, b: True if absint._opt(I, st, a[0])[1] == 0 else absint._truth(absint._call_f(I, st, a[1], [absint._opt(I, st, a[0])[2][0]]))})
+        me = cm.body_model(True, True, 2, own_safety)
+        I = Interp(prog, H, fuel=400000, max_paths=64)
+        try:
+            outs = I.run(nb.path, [('refval', me, ()), ('refval', tuple(Iv(x) for x in INIT), ()), ('refval', tuple(Iv(x) for x in FROM), ()),
+                                   ('refval', tuple(Iv(x) for x in TO), ()), Sym('kinematics')])
+        except (absint.Unsupported, absint.Undecided) as e:
+            raise MachineryError('non_colliding_offsets could not be interpreted (%s): %s' % (type(e).__name__, e))
+        if len(outs) != 1:
+            raise MachineryError('non_colliding_offsets forks on point values (%d outcomes)' % len(outs))
+        res = []
+        for v in outs[0].ret:
+            res.append(tuple(x.lo for x in v))
+        return res, calls, asked
+    where = nb.where(0)
+    res, calls, asked = run(True)
+    ctx.check(set(res) == expected and len(res) == len(expected), 'R14.1', 'candidates', where, nb.path,
+              'with nothing refused the offsets must be exactly the twelve vectors initial[k := from[k]] and initial[k := to[k]]: missing %s, unexpected %s' % (
+                  sorted(expected - set(res))[:3], sorted(set(res) - expected)[:3]), found='%d offered' % len(res), detail='twelve candidates')
+    res0, calls0, asked0 = run(False)
+    ctx.check(set(res0) == expected, 'R14.2', 'no-limits', where, nb.path, 'a robot without limits must be offered every free neighbour (%d of 12 offered)' % len(set(res0) & expected),
+              found='%d offered' % len(res0), detail='twelve candidates without limits')
+    extras = None
+    bad_calls = []
+    for cdesc in calls:
+        cnd = cdesc['cand']
+        ks = [k for k in range(6) if cnd is not None and cnd[k] != INIT[k]]
+        ok = cnd in expected and len(ks) == 1 and cdesc['safety'] == own_safety and cdesc['mode'] in (SOME(('enum', first, ())), ('enum', first, ())) and isinstance(cdesc['skip'], frozenset)
+        if ok:
+            ex = frozenset(cdesc['skip']) - frozenset(range(ks[0]))
+            missing = frozenset(range(ks[0])) - frozenset(cdesc['skip'])
+            # skipping fewer unmoved links than allowed is harmless; skipping a link from k on is judged by the pair tables through `extras`
+            extras = ex if extras is None else (extras | ex)
+        else:
+            bad_calls.append('%s: safety=%r mode=%r skip=%r' % (cnd, cdesc['safety'], cdesc['mode'], cdesc['skip']))
+    ctx.check(not bad_calls and len(calls) == 12, 'R14.4', 'call', where, nb.path,
+              'each candidate must be checked once with its own link poses, the body\'s own safety table and first-collision mode: ' + '; '.join(bad_calls[:2]),
+              found='%d calls' % len(calls), detail='12 calls')
+    moved_extra = sorted(x for x in (extras or ()) if isinstance(x, int) and (x <= 5 or x == cm.J_TOOL))
+    # a member >= k is only "extra" relative to 0..k-1 of that call; constant extras that can move are reported
+    const_extra = frozenset(x for x in (extras or ()) if all(x in c2['skip'] for c2 in calls))
+    ctx.check(not [x for x in const_extra if x <= 5 or x == cm.J_TOOL], 'R14.3', 'skip-set', where, nb.path,
+              'the skip set must be the joints before the moved one (0..k), plus at most bodies that never move: it names a moved body %s' % sorted(const_extra),
+              found=str(sorted(const_extra)), detail='skip = (0..k) + %s' % sorted(const_extra))
+    per_call_bad = []
+    for cdesc in calls:
+        cnd = cdesc['cand']
+        ks = [k for k in range(6) if cnd is not None and cnd[k] != INIT[k]]
+        if len(ks) == 1 and isinstance(cdesc['skip'], frozenset):
+            over = [x for x in cdesc['skip'] if isinstance(x, int) and x >= ks[0] and x not in const_extra and (x <= 5 or x == cm.J_TOOL)]
+            if over:
+                per_call_bad.append('moving joint %d skips %s' % (ks[0] + 1, sorted(over)))
+    ctx.check(not per_call_bad, 'R14.3', 'skip-set/moved', where, nb.path, 'a link that moves with the changed joint is skipped: ' + '; '.join(per_call_bad[:3]), found=str(per_call_bad[:3]))
+    # each candidate in turn refused by the limits / by the collision check
+    lim_bad = []
+    col_bad = []
+    for cnd in sorted(expected):
+        r1, _, _ = run(True, refuse_limits=cnd)
+        if set(r1) != expected - {cnd}:
+            lim_bad.append(cnd)
+        r2, _, _ = run(True, refuse_collision=cnd)
+        if set(r2) != expected - {cnd}:
+            col_bad.append(cnd)
+    ctx.check(not lim_bad, 'R14.2', 'limit-gate', where, nb.path,
+              'a candidate outside the limits must be withheld and only that one (wrong for %d of 12 candidates, e.g. %s)' % (len(lim_bad), lim_bad[:1]), found=str(lim_bad[:2]))
+    ctx.check(not col_bad, 'R14.4', 'keep-on-empty', where, nb.path,
+              'a candidate must be offered exactly when its collision report is empty (wrong for %d of 12 candidates, e.g. %s)' % (len(col_bad), col_bad[:1]), found=str(col_bad[:2]))
+    return frozenset(const_extra)
+
+
 def run(ctx):
     prog = ctx.prog
     ctx.rule('R14.1', 'candidates = initial with slot k := target[k], k in 0..6, target in {from, to}')
@@ -49,10 +205,16 @@ def run(ctx):
     nb = util.find_one(ctx, suffix='collisions::RobotBody::non_colliding_offsets')
     cls = util.closure_bodies(prog, nb.path)
     main = [c for c in cls if any(cname(callee_name(t)).startswith('RobotBody::detect') for _, t in c.calls())]
-    ctx.require(len(main) == 1, 'the candidate-evaluating closure of non_colliding_offsets')
+    enum_b = C10.find_enumeration(ctx)
+    pushes0 = [(bi, t) for bi, t in nb.calls() if cname(callee_name(t)) == 'Vec::push']
+    if len(main) != 1 or len(pushes0) != 1:
+        # not the shape the structural rules below read (twelve (k, target) tasks pushed in a double loop, one closure that
+        # builds, gates and checks the candidate): the function is interpreted as a whole instead
+        extras = _by_interpretation(ctx, prog, nb, enum_b)
+        _pair_tables(ctx, enum_b, extras)
+        return
     c = main[0]
     ctx.fn(c)
-    enum_b = C10.find_enumeration(ctx)
 
     # ---- R14.1 task generation in the parent
     pushes = [(bi, t) for bi, t in nb.calls() if cname(callee_name(t)) == 'Vec::push']
@@ -169,6 +331,10 @@ def run(ctx):
     ctx.check('ParallelIterator::filter_map' in chain and 'ParallelIterator::collect' in chain and not any(x.split('::')[-1] in opw.VEC_REORDER for x in chain),
               'R14.4', 'collect', nb.where(0), nb.path, 'results must be gathered by an order-preserving parallel collect', found=chain)
 
+    _pair_tables(ctx, enum_b, extras)
+
+
+def _pair_tables(ctx, enum_b, extras):
     # ---- R14.3 table soundness per k
     where = enum_b.where(0)
     for k in range(6):
